@@ -418,6 +418,7 @@ def verify(E, c, verbose=False):
                     E.oblige('%s::raises_only' % prefix, bool(ok), 'exc_closure',
                              'escaping %s not in %s' % (value.cls, c.raises))
             if c.exit_hook:
+                spec_env.final = dict(env.locals)     # the activation's locals at exit (entry values are spec_env.locals)
                 c.exit_hook(E, outcome, value, spec_env, prefix)
             if verbose:
                 print('  path %d: %s %r' % (res.paths, outcome, value))
